@@ -72,7 +72,10 @@ class C08(CommProp):
             "in request order (queue of unmatched comms in arrival order, a new comm takes the OLDEST queued opposite comm that both filters "
             "accept, permanent receivers store eager sends until a receive takes the oldest acceptable one): every successful receive must "
             "return the payload (sender, sequence number) of exactly the put the specification matched, intact, with the sent size and tag, "
-            "never twice, never after its detached comm called the clean-up function; a send completes only if matched (or eager); a matched, "
+            "never twice, never after its detached comm called the clean-up function; buffer-mode mailboxes (real bytes moved by a copy function, "
+            "as SMPI does): received length = min(sent, capacity), bytes intact, nothing written beyond, one copy per message; per (sender, mailbox) "
+            "the unfiltered messages are taken in send order (computed from the observations alone); iprobe answers the comm a matching operation "
+            "would take; a send completes only if matched (or eager); a matched, "
             "never cancelled comm completes on both sides and does not fail; queue dumps equal the specification's queues; match functions "
             "are called with (own data, other side's data). Whether a timeout expires / a cancelled transfer had finished is taken from the "
             "log (dates are not decided here); the unlogged cancel that follows a timeout is resolved by angelic choice when requests "
